@@ -111,6 +111,96 @@ fn run(op: &str, a: &[String]) -> String {
             y.decrement();
             format!("{} {}", x.value(), y.value())
         }
+        // ---- further public API: raw views, montyred, power_accumulator, Sum, cyclic group
+        "montyred" => BFieldElement::montyred(a[0].parse::<u128>().unwrap()).to_string(),
+        "rawviews" => {
+            // raw_bytes / raw_u16s / raw_u128 / raw_u64 and their inverses, is_canonical of the raw word
+            let x = b(&a[0]);
+            let rb = x.raw_bytes();
+            let r16 = x.raw_u16s();
+            let back1 = BFieldElement::from_raw_bytes(&rb);
+            let back2 = BFieldElement::from_raw_u16s(&r16);
+            let back3 = BFieldElement::from_raw_u64(x.raw_u64());
+            format!(
+                "{} | {} | {} {} | {} {} {} | {}",
+                rb.iter().map(|v| v.to_string()).collect::<Vec<_>>().join(" "),
+                r16.iter().map(|v| v.to_string()).collect::<Vec<_>>().join(" "),
+                x.raw_u128(),
+                x.raw_u64(),
+                (back1 == x) as u8,
+                (back2 == x) as u8,
+                (back3 == x) as u8,
+                BFieldElement::is_canonical(a[0].parse::<u64>().unwrap()) as u8
+            )
+        }
+        "poweracc" => {
+            // power_accumulator::<2, M>(base, tail) for M in {0, 1, 3, 32}
+            let base = [b(&a[1]), b(&a[2])];
+            let tail = [b(&a[3]), b(&a[4])];
+            let r = match a[0].as_str() {
+                "0" => BFieldElement::power_accumulator::<2, 0>(base, tail),
+                "1" => BFieldElement::power_accumulator::<2, 1>(base, tail),
+                "3" => BFieldElement::power_accumulator::<2, 3>(base, tail),
+                "32" => BFieldElement::power_accumulator::<2, 32>(base, tail),
+                _ => panic!("M"),
+            };
+            format!("{} {}", r[0].value(), r[1].value())
+        }
+        "sum" => {
+            let v: Vec<BFieldElement> = a.iter().map(|s| b(s)).collect();
+            v.into_iter().sum::<BFieldElement>().value().to_string()
+        }
+        "cyclic" => {
+            // get_cyclic_group_elements(max): a[0] = generator value, a[1] = max or `-`
+            use twenty_first::math::traits::CyclicGroupGenerator;
+            let max = if a[1] == "-" { None } else { Some(a[1].parse::<usize>().unwrap()) };
+            let r = b(&a[0]).get_cyclic_group_elements(max);
+            r.iter().map(|x| x.value().to_string()).collect::<Vec<_>>().join(" ")
+        }
+        "generator" => show(BFieldElement::generator()),
+        "consts" => format!(
+            "{} {} {} {}",
+            BFieldElement::P,
+            BFieldElement::MAX,
+            BFieldElement::MINUS_TWO_INVERSE.value(),
+            BFieldElement::BYTES
+        ),
+        "xsum" => {
+            let v: Vec<XFieldElement> = a.chunks(3).map(x3).collect();
+            showx(v.into_iter().sum::<XFieldElement>())
+        }
+        "xnewconst" => showx(XFieldElement::new_const(b(&a[0]))),
+        "xtryslice" => {
+            let v: Vec<BFieldElement> = a.iter().map(|s| b(s)).collect();
+            match XFieldElement::try_from(v.as_slice()) {
+                Ok(x) => showx(x),
+                Err(_) => "ERR".to_string(),
+            }
+        }
+        "xincr" => {
+            let mut x = x3(&a[0..3]);
+            x.increment(a[3].parse::<usize>().unwrap());
+            showx(x)
+        }
+        "xdecr" => {
+            let mut x = x3(&a[0..3]);
+            x.decrement(a[3].parse::<usize>().unwrap());
+            showx(x)
+        }
+        "xroot" => match XFieldElement::primitive_root_of_unity(a[0].parse::<u64>().unwrap()) {
+            Some(r) => showx(r),
+            None => "NONE".to_string(),
+        },
+        "xcyclic" => {
+            use twenty_first::math::traits::CyclicGroupGenerator;
+            let max = Some(a[3].parse::<usize>().unwrap());
+            let r = x3(&a[0..3]).get_cyclic_group_elements(max);
+            r.iter().map(|x| showx(*x)).collect::<Vec<_>>().join(" ")
+        }
+        "shah" => {
+            let p = XFieldElement::shah_polynomial();
+            p.coefficients().iter().map(|c| c.value().to_string()).collect::<Vec<_>>().join(" ")
+        }
         // ---- extension field
         "xadd" => showx(x3(&a[0..3]) + x3(&a[3..6])),
         "xsub" => showx(x3(&a[0..3]) - x3(&a[3..6])),
